@@ -23,6 +23,16 @@ import data_algebra.expression_walker
 # also possible, Dask, Nvidia Rapids, Modin, or Datatable versions
 
 
+def _scratch_name(base: str, taken) -> str:
+    """
+    Name for a scratch column: base, lengthened until it is none of the taken (user visible) names.
+    """
+    name = base
+    while name in taken:
+        name = name + "_"
+    return name
+
+
 def none_mark_scalar_or_length(v) -> Optional[int]:
     """
     Test if item is a scalar (returning None) if it is, else length of object.
@@ -701,7 +711,11 @@ class PandasModelBase(
             res = self.add_data_frame_columns_to_data_frame_(res, new_frame)
         else:
             data_algebra_temp_cols = {}
-            standin_name = "_data_algebra_temp_g"  # name of an arbitrary input variable
+            taken_names = set(res.columns).union(op.ops.keys())  # scratch columns must not capture these
+            standin_name = _scratch_name(
+                "_data_algebra_temp_g", taken_names
+            )  # name of an arbitrary input variable
+            orig_index_name = _scratch_name("_data_algebra_orig_index", taken_names)
             # build up a sub-frame to work on
             col_list = [c for c in set(op.partition_by)]
             col_set = set(col_list)
@@ -721,8 +735,10 @@ class PandasModelBase(
                     elif isinstance(opk.args[0], data_algebra.expr_rep.Value):
                         key = str(opk.args[0].value)
                         if key not in data_algebra_temp_cols.keys():
-                            value_name = "data_algebra_extend_temp_col_" + str(
-                                len(data_algebra_temp_cols)
+                            value_name = _scratch_name(
+                                "data_algebra_extend_temp_col_"
+                                + str(len(data_algebra_temp_cols)),
+                                taken_names,
                             )
                             data_algebra_temp_cols[key] = value_name
                             col_list.append(value_name)
@@ -731,7 +747,7 @@ class PandasModelBase(
                         raise ValueError("opk must be a ColumnReference or Value")
             ascending = [c not in set(op.reverse) for c in col_list]
             subframe = self.clean_copy(res[col_list])
-            subframe["_data_algebra_orig_index"] = subframe.index
+            subframe[orig_index_name] = subframe.index
             if len(order_cols) > 0:
                 subframe = self.clean_copy(
                     subframe.sort_values(by=col_list, ascending=ascending)
@@ -813,7 +829,7 @@ class PandasModelBase(
             for value_name in data_algebra_temp_cols.values():
                 del res[value_name]
             # copy out results
-            subframe = subframe.sort_values(by=["_data_algebra_orig_index"])
+            subframe = subframe.sort_values(by=[orig_index_name])
             subframe = subframe.loc[:, list(op.ops.keys())]
             subframe = self.clean_copy(subframe)
             res = self.add_data_frame_columns_to_data_frame_(res, subframe)
@@ -832,6 +848,8 @@ class PandasModelBase(
         # https://www.shanelynn.ie/summarising-aggregation-and-grouping-data-in-python-pandas/
         data_algebra_temp_cols = {}
         res = self._eval_value_source(op.sources[0], data_map=data_map)
+        taken_names = set(res.columns).union(op.ops.keys())  # scratch columns must not capture these
+        temp_col = _scratch_name("_data_table_temp_col", taken_names)
         for k, opk in op.ops.items():
             if len(opk.args) > 1:
                 raise ValueError(
@@ -843,8 +861,10 @@ class PandasModelBase(
                 elif isinstance(opk.args[0], data_algebra.expr_rep.Value):
                     key = str(opk.args[0].value)
                     if key not in data_algebra_temp_cols.keys():
-                        value_name = "data_algebra_project_temp_col_" + str(
-                            len(data_algebra_temp_cols)
+                        value_name = _scratch_name(
+                            "data_algebra_project_temp_col_"
+                            + str(len(data_algebra_temp_cols)),
+                            taken_names,
                         )
                         data_algebra_temp_cols[key] = value_name
                         res[value_name] = opk.args[0].value
@@ -855,7 +875,7 @@ class PandasModelBase(
                         + ": "
                         + str(opk)
                     )
-        res["_data_table_temp_col"] = 1
+        res[temp_col] = 1
         if len(op.group_by) > 0:
             res = res.groupby(op.group_by, observed=True, dropna=False)
         if len(op.ops) > 0:
@@ -884,10 +904,10 @@ class PandasModelBase(
                         transform_op = self.transform_op_map[transform_op]
                     except KeyError:
                         pass
-                    vk = res["_data_table_temp_col"].agg(transform_op)
+                    vk = res[temp_col].agg(transform_op)
                 cols[k] = vk
         else:
-            cols = {"_data_table_temp_col": res["_data_table_temp_col"].agg("sum")}
+            cols = {temp_col: res[temp_col].agg("sum")}
         # agg can return scalars, which then can't be made into a self.pd.DataFrame
         res = self.columns_to_frame_(cols)
         res = res.reset_index(
@@ -901,8 +921,8 @@ class PandasModelBase(
         else:
             for g in missing_group_cols:
                 res[g] = []
-        if "_data_table_temp_col" in res.columns:
-            res = res.drop("_data_table_temp_col", axis=1, inplace=False)
+        if temp_col in res.columns:
+            res = res.drop(temp_col, axis=1, inplace=False)
         # double check shape is what we expect
         if not self.table_is_keyed_by_columns(res, column_names=op.group_by):
             raise ValueError("result wasn't keyed by group_by columns")
@@ -1039,7 +1059,9 @@ class PandasModelBase(
         on_b = op.on_b
         scratch_col = None  # extra column to prevent empty-on issues
         if len(on_a) <= 0:
-            scratch_col = "data_algebra_temp_merge_col"
+            scratch_col = _scratch_name(
+                "data_algebra_temp_merge_col", set(left.columns).union(right.columns)
+            )
             on_a = [scratch_col]
             on_b = [scratch_col]
             left[scratch_col] = 1
@@ -1062,6 +1084,14 @@ class PandasModelBase(
                 )
                 on_a = on_a + [null_guard_col]
                 on_b = on_b + [null_guard_col]
+        right_suffix = "_tmp_right_col"  # marks the right copy of a shared column
+        while any(
+            [
+                (c + right_suffix in left.columns) or (c + right_suffix in right.columns)
+                for c in common_cols
+            ]
+        ):
+            right_suffix = right_suffix + "_"  # never capture a user column
         # noinspection PyUnresolvedReferences
         res = self.pd.merge(
             left=left,
@@ -1070,7 +1100,7 @@ class PandasModelBase(
             left_on=on_a,
             right_on=on_b,
             sort=False,
-            suffixes=("", "_tmp_right_col"),
+            suffixes=("", right_suffix),
         )
         self.drop_indices(res)
         if scratch_col is not None:
@@ -1085,8 +1115,8 @@ class PandasModelBase(
                 is_null = res[c].isnull()
                 if is_null.any():
                     # where() (not .loc assignment) so the column may change dtype, e.g. all-missing float -> bool
-                    res[c] = res[c].where(~is_null, res[c + "_tmp_right_col"])
-                res = res.drop(c + "_tmp_right_col", axis=1, inplace=False)
+                    res[c] = res[c].where(~is_null, res[c + right_suffix])
+                res = res.drop(c + right_suffix, axis=1, inplace=False)
         self.drop_indices(res)
         return res
 
